@@ -330,6 +330,13 @@ func (f Field) Init(def, rep int) string {
 	var defs, reps int
 	var fld Field
 
+	// within a repeated column the values of one record are consumed
+	// one by one, so the first value is only right for the first element
+	first := "vals[0]"
+	if maxRep > 0 {
+		first = "vals[nVals]"
+	}
+
 	left, right := "%s", "%s"
 
 	chain := f.Chain()
@@ -388,11 +395,11 @@ func (f Field) Init(def, rep int) string {
 				if (fld.Parent.IsRoot() || fld.Parent.Defined) && fld.Parent.RepetitionType == Repeated && (rep == 0 || rep == reps) { //Should this be a check for repeated anywhere in the full chain?
 					right = fmt.Sprintf(right, "vals[nVals]%s")
 				} else if (fld.Parent.Parent == nil || fld.Parent.Defined) && rep == 0 {
-					right = fmt.Sprintf(right, "vals[0]%s")
+					right = fmt.Sprintf(right, first+"%s")
 				} else if fld.Parent.RepetitionType == Repeated {
 					right = fmt.Sprintf(right, fmt.Sprintf("%s: vals[nVals]%%s", fld.Name))
 				} else {
-					right = fmt.Sprintf(right, fmt.Sprintf("%s: vals[0]%%s", fld.Name))
+					right = fmt.Sprintf(right, fmt.Sprintf("%s: %s%%s", fld.Name, first))
 				}
 			} else {
 				right = fmt.Sprintf(right, fmt.Sprintf("%s: %s{%%s}", fld.Name, fld.Type))
@@ -400,7 +407,7 @@ func (f Field) Init(def, rep int) string {
 		case Optional:
 			if fld.Primitive() {
 				if f.NthChild == 0 && fld.Parent.Optional() && !fld.Parent.Repeated() {
-					right = fmt.Sprintf(right, fmt.Sprintf("%s: p%s(vals[0])%%s", fld.Name, fld.Type))
+					right = fmt.Sprintf(right, fmt.Sprintf("%s: p%s(%s)%%s", fld.Name, fld.Type, first))
 				} else if fld.Parent.RepetitionType == Repeated {
 					right = fmt.Sprintf(right, fmt.Sprintf("p%s(vals[nVals])%%s", fld.Type))
 				} else if fld.Parent.Repeated() && f.NthChild == 0 {
@@ -408,7 +415,7 @@ func (f Field) Init(def, rep int) string {
 				} else if fld.Parent.Repeated() && f.NthChild > 0 {
 					right = fmt.Sprintf(right, fmt.Sprintf("p%s(vals[nVals])%%s", fld.Type))
 				} else {
-					right = fmt.Sprintf(right, fmt.Sprintf("p%s(vals[0])%%s", fld.Type))
+					right = fmt.Sprintf(right, fmt.Sprintf("p%s(%s)%%s", fld.Type, first))
 				}
 			} else {
 				if j == 0 {
